@@ -345,10 +345,10 @@ def c_case(case, out):
 # ------------------------------------------------------------------------------------------------
 def _auto_prefix():
     """the prefix of the names of unnamed analyses in the tree under test (regenerated table entry
-    Hdl21Gen.C17Tables.auto_name_prefix): user names that LOOK generated are spelled with it"""
+    Hdl21Gen.C17Names.auto_name_prefix): user names that LOOK generated are spelled with it"""
     import os, re
     try:
-        m = re.search(r'Definition auto_name_prefix : string := "([ -!#-~]*)"\.', open(os.path.join(core.COQDIR, "generated", "C17Tables.v")).read())
+        m = re.search(r'Definition auto_name_prefix : string := "([ -!#-~]*)"\.', open(os.path.join(core.COQDIR, "generated", "C17Names.v")).read())
         return m.group(1) if m else "Analysis"
     except OSError:
         return "Analysis"
